@@ -8,8 +8,7 @@ import tempfile
 import driver
 
 VERIF = driver.VERIF
-SERVES = {'W1': ['C18'], 'W2': ['C18'], 'W3': ['C18'], 'W4': ['C18'], 'W5': ['C18'], 'W6': ['C20'], 'W7': ['C01'],
-          'W8': ['C08']}
+SERVES = {'W1': ['C18'], 'W4': ['C18'], 'W6': ['C20']}
 
 
 def run(repo):
